@@ -15,7 +15,20 @@ from lib import close
 
 MODULE = "ProbLogProofs.Properties.C10"
 THEOREMS = [
-    "ProbLogProofs.C10.C10_evalLine_lit",
+    "ProbLogProofs.C10.C10_eval_is_wmc",
+    "ProbLogProofs.C10.C10_line_is_wmc",
+    "ProbLogProofs.C10.C10_impliesLit_sound",
+    "ProbLogProofs.C10.C10_decomposable",
+    "ProbLogProofs.C10.C10_smooth_deterministic",
+    "ProbLogProofs.C10.C10_count",
+    "ProbLogProofs.C10.C10_entails",
+    "ProbLogProofs.C10.C10_equiv_sets",
+    "ProbLogProofs.C10.C10_equiv",
+    "ProbLogProofs.C10.C10_query_trick",
+    "ProbLogProofs.C10.C10_setValue_weights",
+    "ProbLogProofs.C10.C10_query_trick_setValue",
+    "ProbLogProofs.C10.C05_hom",
+    "ProbLogProofs.C10.C05_hom_ring",
 ]
 
 MANIFEST = {
